@@ -423,6 +423,59 @@ impl<Ctx: OptCtx> LoweredToLir<'_, Ctx> {
     }
 }
 
+#[cfg(roto_verif)]
+impl<Ctx: OptCtx> LoweredToLir<'_, Ctx> {
+    /// Verification hook: run `main` in the LIR evaluator with scalar arguments
+    pub fn verif_eval(
+        &self,
+        args: &[crate::verif::Scalar],
+    ) -> crate::verif::EvalResult {
+        use crate::verif::{EvalResult, Scalar};
+        let mut mem = Memory::new();
+        let ctx = IrValue::Pointer(mem.allocate(0));
+        let args = args.iter().map(|a| a.to_ir()).collect();
+        match self.eval(&mut mem, ctx, args) {
+            None => EvalResult::Unit,
+            Some(v) => match Scalar::from_ir(v) {
+                Some(s) => EvalResult::Value(s),
+                None => EvalResult::Other,
+            },
+        }
+    }
+}
+
+#[cfg(roto_verif)]
+impl RotoReport {
+    /// Verification hook: all source locations this report cites
+    pub fn verif_locations(&self) -> Vec<crate::verif::CitedLocation> {
+        use crate::verif::CitedLocation;
+        let cite = |s: crate::parser::meta::Span| CitedLocation {
+            file: s.file,
+            start: s.start,
+            end: s.end,
+        };
+        let mut out = Vec::new();
+        for error in &self.errors {
+            match error {
+                RotoError::Parse(error) => {
+                    out.push(cite(error.location));
+                    for hint in &error.hints {
+                        out.push(cite(hint.location));
+                    }
+                }
+                RotoError::Type(error) => {
+                    out.push(cite(self.spans.get(error.location)));
+                    for l in &error.labels {
+                        out.push(cite(self.spans.get(l.id)));
+                    }
+                }
+                _ => {}
+            }
+        }
+        out
+    }
+}
+
 impl<Ctx: OptCtx> Package<Ctx> {
     /// Return an iterator with all the tests in this [`Package`].
     pub fn get_tests(
